@@ -494,6 +494,44 @@ fn margins_case(ctx: &mut Ctx, wl: &str, case: u64, rng: &mut Rng) {
     }
 }
 
+/// unit initialisation (the start of every problem with a nonsymmetric cone, re-solves included) writes the whole
+/// of s and z: whatever the buffers held before - the previous solve's solution - is gone, every proper block is
+/// strictly inside its cone, zero-cone blocks are zero, and the result does not depend on the old contents
+fn unit_init_case(ctx: &mut Ctx, wl: &str, case: u64, rng: &mut Rng) {
+    let o = gen::GenOpts { kinds: gen::all_kinds(), allow_empty_cones: false, mmax: 30, psd_max: 4, ..Default::default() };
+    let cts: Vec<ConeT> = gen::random_cone_list(rng, &o).into_iter().filter(|c| !vkit::kkt::is_singleton_nonneg(c)).collect();
+    if cts.is_empty() {
+        return;
+    }
+    let m = vc::total_dim(&cts);
+    let comp = CompositeCone::<f64>::new(&cts);
+    let mag = rng.logpos(-2.0, 4.0);
+    let mut z: Vec<f64> = (0..m).map(|_| rng.normal() * mag).collect();
+    let mut s: Vec<f64> = (0..m).map(|_| rng.normal() * mag).collect();
+    comp.unit_initialization(&mut z, &mut s);
+    let (mut z0, mut s0) = (vec![0.0; m], vec![0.0; m]);
+    comp.unit_initialization(&mut z0, &mut s0);
+    ctx.eval(1);
+    if z.iter().zip(&z0).any(|(a, b)| a.to_bits() != b.to_bits()) || s.iter().zip(&s0).any(|(a, b)| a.to_bits() != b.to_bits()) {
+        ctx.violation("unit_initialization:depends_on_old_buffer_contents", "unit_initialization:depends_on_old_buffer_contents", wl, case, json!({"cones": vkit::problem::cones_json(&cts), "from_dirty_buffers": {"s": s, "z": z}, "from_zeroed_buffers": {"s": s0, "z": z0}}));
+        return;
+    }
+    for (c, r) in cts.iter().zip(cone_ranges(&cts)) {
+        let (sv, zv) = (&s[r.clone()], &z[r.clone()]);
+        if let ConeT::ZeroConeT(_) = c {
+            if sv.iter().chain(zv.iter()).any(|t| *t != 0.0) {
+                ctx.violation("unit_initialization:zero_cone", "unit_initialization:zero_cone", wl, case, json!({"s": sv, "z": zv}));
+            }
+            continue;
+        }
+        let (ms, ss) = vc::margin(c, sv, false);
+        let (mz, sz) = vc::margin(c, zv, true);
+        if !(ms > 1e-6 * ss && mz > 1e-6 * sz) {
+            ctx.violation("unit_initialization:not_interior", &format!("unit_initialization:not_interior:{}", cone_name(c)), wl, case, json!({"cone": cone_name(c), "s": sv, "z": zv, "margins": [ms, mz]}));
+        }
+    }
+}
+
 pub fn run(ctx: &mut Ctx) {
     let wl = "single_cone";
     let total = if ctx.flavour == "miri" { ctx.count(80, 400) } else { ctx.count(40000, 800000) };
@@ -536,6 +574,7 @@ pub fn run(ctx: &mut Ctx) {
         let r = vkit::report::catch(std::panic::AssertUnwindSafe(|| {
             composite_case(ctx, wl, case, &mut rng);
             margins_case(ctx, wl, case, &mut rng);
+            unit_init_case(ctx, wl, case, &mut rng);
         }));
         if let Err(msg) = r {
             ctx.violation("panic", &format!("panic:{}", msg.rsplit(" @ ").next().unwrap_or("").replace("/repo/", "")), wl, case, json!({"panic": msg}));
